@@ -2,6 +2,7 @@ package verifsim
 
 import (
 	"fmt"
+	"regexp"
 	"strconv"
 	"strings"
 
@@ -210,11 +211,22 @@ func CheckUciHistory(sc *Scenario, out *UciRunOut, res *RunResult) {
 				switch tok[0] {
 				case "position", "ucinewgame":
 					modelKnown = false
+					if tok[0] == "ucinewgame" && pending != nil {
+						pending.newgameT = h.T
+					}
 				case "go":
 					if pending == nil {
 						pending = &goTrack{line: h.Text, damaged: true, tIn: h.T, stopT: -1, hitT: -1, newgameT: -1}
 					}
 				case "stop":
+					if pending != nil {
+						pending.stopT = h.T
+					}
+				case "ponderhit":
+					if pending != nil {
+						pending.hitT = h.T
+					}
+				case "quit":
 					if pending != nil {
 						pending.stopT = h.T
 					}
@@ -354,7 +366,14 @@ func CheckUciHistory(sc *Scenario, out *UciRunOut, res *RunResult) {
 	for _, lp := range out.LoopPanics {
 		if lp.Msg == "" {
 			if lp.Line != "quit" {
-				res.addViolation(pick(c16, "C16", "C12"), "loop_ended", fmt.Sprintf("protocol loop ended at %q", lp.Line))
+				cls := "loop_ended"
+				for _, st := range sc.Steps {
+					if len(st.Line) > 65536 {
+						// the loop ended some time after a line longer than the input scanner's buffer
+						cls = "loop_ended_after_overlong_line"
+					}
+				}
+				res.addViolation(pick(c16, "C16", "C12"), cls, fmt.Sprintf("protocol loop ended at %q", lp.Line))
 			}
 			continue
 		}
@@ -375,16 +394,14 @@ func pick(c bool, a, b string) string {
 
 // panicSite extracts a stable identifier (innermost engine function) from a panic report.
 func panicSite(msg string) string {
-	i := strings.Index(msg, "FrankyGo/internal/")
-	if i < 0 {
+	m := rePanicSite.FindStringSubmatch(msg)
+	if m == nil {
 		return "unknown"
 	}
-	s := msg[i+len("FrankyGo/internal/"):]
-	if j := strings.IndexAny(s, "( "); j >= 0 {
-		s = s[:j]
-	}
-	return s
+	return m[1]
 }
+
+var rePanicSite = regexp.MustCompile(`FrankyGo/internal/([\w/]+\.(?:\(\*?\w+\)\.)?\w+)`)
 
 // pvUnplayable returns a description of the first unplayable move of the pv
 // in an info line, or "".
